@@ -14,6 +14,10 @@ impl Monitor for C09 {
     fn prop(&self) -> &'static str {
         "C09"
     }
+    fn scalable(&self, g: &str) -> bool {
+        let _ = g;
+        true
+    }
     fn gens(&self, tier: Tier) -> Vec<Gen> {
         vec![gen("states", tier.pick(3_000, 400_000, 3)), gen("joins", tier.pick(1_500, 150_000, 2)), gen("single-channel", 9 * 3 * 16 * tier.pick(1, 10, 0)), gen("rejoin-500k", tier.pick(270, 5_000, 0))]
     }
